@@ -195,6 +195,12 @@ def run(chk):
     for s, o in list(zip(all_s, all_o))[:4]:
         chk.sample({"mode": s["mode"], "strategy": s["strategy"], "dry": s["dry"], "plan": [(e["dir"], e["rel"], e["r"]) for e in s["plan"]][:4],
                     "status": o["status"], "report": o["report"][:3]})
+    # the whole-program model (Whole/*.v), on which this property's whole-program theorems rest, against the real command line
+    import whole as _whole
+    import random as _random
+    _ws = {}
+    _whole.whole_stream(chk, _random.Random(chk.seed * 7919 + 5), 60 if chk.tier == "quick" else 2500, _ws)
+    chk.notes["whole_program_tie"] = _ws
     chk.coverage["rule"] = (
         "each generated scenario (tree, 1-3 input roots with equal relative names, injected plan with free/colliding/chained/cyclic "
         "destinations, order, strategy, scripted answers) is materialised twice and run through the real tempren.cli.main() once with "
